@@ -214,12 +214,21 @@ def rule_w4_w5(repo, col):
     tab = {}
     for p in paths:
         conds = dict((s, t) for s, t, _ in p.conds)
-        gr = [(a, node) for fn, a, node in p.calls if fn == "self.ground"]
+        gr = [(a, {kw.arg: norm(kw.value) for kw in node.keywords if kw.arg}) for fn, a, node in p.calls if fn == "self.ground"]
+        # a helper method that does the grounding for one evidence atom (inlining bound 1, specialised to the arguments of the call site)
+        for fn, a, node in p.calls:
+            if fn.startswith("self.") and fn != "self.ground" and f.cls is not None and fn[5:] in f.cls.methods and isinstance(node, ast.Call):
+                h = f.cls.methods[fn[5:]]
+                if not any(isinstance(x, ast.Call) and norm(x.func) == "self.ground" for x in ast.walk(h.node)):
+                    continue
+                spec = dtable.inline_call(h.node, node, None, arg_srcs=a)
+                if len(spec) != 1 or spec[0][0]:
+                    raise AnalysisError("ground_evidence: helper %s is not decided by its arguments at this call site" % fn)
+                gr.extend((a2, kw2) for fn2, a2, kw2 in spec[0][1] if fn2 == "self.ground")
         if len(gr) != 1:
             raise AnalysisError("ground_evidence: a path with %d ground() calls" % len(gr))
-        args, node = gr[0]
-        label = [norm(kw.value) for kw in node.keywords if kw.arg == "label"]
-        entry = (args[1], label[0] if label else None)
+        args, kws_ = gr[0]
+        entry = (args[1], kws_.get("label"))
         if conds.get("len(%s) == 1" % q):
             tab["1-neg" if conds.get("%s[0].is_negated()" % q) else "1-pos"] = entry
         else:
@@ -297,9 +306,14 @@ def rule_w6(repo, col):
             if mm and "len(" not in mm.group(1):
                 neg = (mm.group(2) == "<") == bool(t)
                 signs.add("neg" if neg else "pos")
-            if re.match(r"^self\.FALSE in \w+$", s_):
+            # `self.FALSE in <the children's values>`: the list may be a name or (after substitution of a comprehension-built list) the expression itself
+            try:
+                ae = ast.parse(s_, mode="eval").body
+            except SyntaxError:
+                ae = None
+            if isinstance(ae, ast.Compare) and len(ae.ops) == 1 and isinstance(ae.ops[0], ast.In) and norm(ae.left) == "self.FALSE":
                 false_child = t
-            if re.match(r"^self\.TRUE in \w+$", s_):
+            if isinstance(ae, ast.Compare) and len(ae.ops) == 1 and isinstance(ae.ops[0], ast.In) and norm(ae.left) == "self.TRUE":
                 true_child = t
         if len(signs) != 1:
             # no sign test, or `nid < 0` and `nid > 0` both false: node keys in the queue are never 0 (0 is the TRUE key), so that path is infeasible
@@ -338,21 +352,54 @@ def rule_w8(repo, col):
     m = f.module
     loops = [n for n in ast.walk(f.node) if isinstance(n, ast.For) and norm(n.iter).endswith(".children") and isinstance(n.target, ast.Name)
              and any(isinstance(c_, ast.Call) and isinstance(c_.func, ast.Attribute) and c_.func.attr == "append" for c_ in ast.walk(n))]
-    if len(loops) != 1:
+    comp = None
+    if not loops:
+        # the same list written as a comprehension: [<value of c> for c in n.children (for v in (<expr>,))*]
+        comps = [x for x in ast.walk(f.node) if isinstance(x, ast.ListComp) and x.generators and norm(x.generators[0].iter).endswith(".children")
+                 and isinstance(x.generators[0].target, ast.Name) and any(isinstance(y, ast.Attribute) and y.attr == "get" for y in ast.walk(x))]
+        if len(comps) == 1 and not any(g_.ifs for g_ in comps[0].generators):
+            comp = comps[0]
+    if len(loops) != 1 and comp is None:
         raise AnalysisError("LogicFormula.propagate: loop computing the children's values not found")
-    lp = loops[0]
-    c = lp.target.id
-    paths = dtable.extract_block(lp.body, opaque_loops=True)
+    if comp is None:
+        lp = loops[0]
+        c = lp.target.id
+        paths = dtable.extract_block(lp.body, opaque_loops=True)
+    else:
+        lp = comp
+        c = comp.generators[0].target.id
+        binds = {}
+        for g_ in comp.generators[1:]:
+            if isinstance(g_.target, ast.Name) and isinstance(g_.iter, ast.Tuple) and len(g_.iter.elts) == 1:
+                binds[g_.target.id] = g_.iter.elts[0]
+            else:
+                raise AnalysisError("LogicFormula.propagate: comprehension over the children not understood")
+
+        class _Sub(ast.NodeTransformer):
+            def visit_Name(self, node):
+                if node.id in binds and isinstance(node.ctx, ast.Load):
+                    return self.visit(ast.parse(norm(binds[node.id]), mode="eval").body)
+                return node
+        elt = _Sub().visit(ast.parse(norm(comp.elt), mode="eval").body)
     n = 0
     for lit in (5, -5):
-        ps = dtable.compatible(paths, [(c, lit)])
-        ps = [p_ for p_ in ps if all(dtable.eval_atom(s_, [(c, lit)], None) is not None for s_, _, _ in p_.conds)]
-        if len(ps) != 1:
-            raise AnalysisError("LogicFormula.propagate: %d paths of the child loop for a %s literal" % (len(ps), "negative" if lit < 0 else "positive"))
-        app = [a for fn, a, _ in ps[0].calls if fn.endswith(".append")]
-        if len(app) != 1:
-            raise AnalysisError("LogicFormula.propagate: child value not appended exactly once")
-        src = app[0][0]
+        if comp is None:
+            ps = dtable.compatible(paths, [(c, lit)])
+            ps = [p_ for p_ in ps if all(dtable.eval_atom(s_, [(c, lit)], None) is not None for s_, _, _ in p_.conds)]
+            if len(ps) != 1:
+                raise AnalysisError("LogicFormula.propagate: %d paths of the child loop for a %s literal" % (len(ps), "negative" if lit < 0 else "positive"))
+            app = [a for fn, a, _ in ps[0].calls if fn.endswith(".append")]
+            if len(app) != 1:
+                raise AnalysisError("LogicFormula.propagate: child value not appended exactly once")
+            src = app[0][0]
+        else:
+            e_ = elt
+            while isinstance(e_, ast.IfExp):
+                okt, tv_ = const_value(e_.test, {c: lit})
+                if not okt:
+                    raise AnalysisError("LogicFormula.propagate: sign test of the child value not foldable: %s" % norm(e_.test))
+                e_ = e_.body if tv_ else e_.orelse
+            src = norm(e_)
         e = ast.parse(src, mode="eval").body
         negated = False
         if isinstance(e, ast.Call) and dotted(e.func) == "self.negate" and len(e.args) == 1:
